@@ -42,7 +42,10 @@ func (checker *TimestampChecker) IsUpToDate(t *ast.Task) (bool, error) {
 	// If the file exists, add the file path to the generates.
 	// If the generate file is old, the task will be executed.
 	_, err = os.Stat(timestampFile)
-	if err == nil {
+	// Without the timestamp file there is no record of a completed run (it
+	// is removed when a run fails), so the task can't be up-to-date.
+	timestampFileExists := err == nil
+	if timestampFileExists {
 		generates = append(generates, timestampFile)
 	} else {
 		// Create the timestamp file for the next execution when the file does not exist.
@@ -81,7 +84,7 @@ func (checker *TimestampChecker) IsUpToDate(t *ast.Task) (bool, error) {
 		}
 	}
 
-	return !shouldUpdate, nil
+	return timestampFileExists && !shouldUpdate, nil
 }
 
 func (checker *TimestampChecker) Kind() string {
@@ -141,8 +144,15 @@ func anyFileNewerThan(files []string, givenTime time.Time) (bool, error) {
 	return false, nil
 }
 
-// OnError implements the Checker interface
-func (*TimestampChecker) OnError(t *ast.Task) error {
+// OnError implements the Checker interface. The timestamp file records the
+// last run; a run that did not complete must not count, so the file is removed.
+func (checker *TimestampChecker) OnError(t *ast.Task) error {
+	if len(t.Sources) == 0 {
+		return nil
+	}
+	if err := os.Remove(checker.timestampFilePath(t)); err != nil && !os.IsNotExist(err) {
+		return err
+	}
 	return nil
 }
 
